@@ -461,6 +461,10 @@ pub fn cache_program(rng: &mut Rng) -> (u64, Vec<CacheOp>) {
     } else {
         1u64 << rng.below(17)
     };
+    (size, cache_program_for(rng, size))
+}
+
+pub fn cache_program_for(rng: &mut Rng, size: u64) -> Vec<CacheOp> {
     let bits = if size.count_ones() == 1 { size.trailing_zeros() } else { 4 };
     let n = rng.range(3, 60);
     // a few slots, several hashes per slot (colliding in the index, different in the high bits)
@@ -536,5 +540,5 @@ pub fn cache_program(rng: &mut Rng) -> (u64, Vec<CacheOp>) {
     for h in hashes.iter() {
         prog.push(CacheOp::G(*h));
     }
-    (size, prog)
+    prog
 }
